@@ -140,7 +140,7 @@ def r1_guarded_writes(ctx):
                 continue
             n += 1
             items = _client_items(body, t["args"][0])
-            key = "%s/%s@%s" % (short(body.path), d.rsplit("::", 1)[-1], body.blocks[bb].term.get("span", "").rsplit(":", 1)[-1])
+            key = ctx.nth("%s/%s" % (short(body.path), d.rsplit("::", 1)[-1]))
             if not items:
                 ctx.bad(key, site_of(body, bb), "the written buffer does not come from a per-client query iteration (cannot relate it to a client's visibility)")
                 continue
@@ -221,7 +221,7 @@ def r2_right_entity(ctx):
             if callee_decl(t).endswith("server::" + name):
                 arg = t["args"][2] if name == "write_entity_cached" else t["args"][-1]
                 src = next_sources(F, cc, arg)
-                ctx.check(bool(src & ent_loops), "collect_changes/%s-of-tested-entity@%s" % (name, cc.blocks[bb].term["span"].rsplit(":", 1)[-1]), site_of(cc, bb),
+                ctx.check(bool(src & ent_loops), ctx.nth("collect_changes/%s-of-tested-entity" % name), site_of(cc, bb),
                           "the serialised entity/component does not come from the iteration whose visibility was tested")
     # removals / despawns: tested entity == written entity
     for fn_name, writer in (("server::collect_removals", "add_removals"), ("server::collect_despawns", "add_despawn")):
